@@ -16,7 +16,7 @@ OPNAMES = {1: "insert_text", 2: "delete_before_cursor", 3: "delete", 4: "newline
            9: "transform_current_line", 10: "transform_region", 11: "indent", 12: "unindent",
            13: "set_text", 14: "set_cursor_position", 15: "cursor_left", 16: "cursor_right",
            17: "backward-delete-char", 18: "delete-char", 19: "self-insert", 20: "transpose-chars",
-           21: "join_selected_lines", 22: "case-word", 23: "go_to_history"}
+           21: "join_selected_lines", 22: "case-word", 23: "go_to_history", 24: "reshape_text"}
 CASE_CMDS = ["uppercase-word", "downcase-word", "capitalize-word"]
 
 
@@ -149,6 +149,10 @@ def impl_step(b, op, ctx):
             b.selection_state = None
     elif k == 23:
         b.go_to_history(op[1])
+    elif k == 24:
+        from prompt_toolkit.buffer import reshape_text
+        b.text_width = op[3]
+        reshape_text(b, op[1], op[2])
     else:
         raise ValueError(k)
     return ret
@@ -203,6 +207,12 @@ def impl_case(case):
 # --------------------------------------------------------------------------
 # oracle: the theorem statements transcribed for the implementation's results
 
+def margin_of(t0, c0):
+    """the leading blanks of the line the cursor is on (lines are separated by "\\n" only)"""
+    line = t0.split("\n")[t0[:c0].count("\n")]
+    return line[:len(line) - len(line.lstrip())]
+
+
 def oracle_step(t0, c0, op, status, t1, c1, ret, views):
     """Return None or (clause, family)."""
     k = op[0]
@@ -254,6 +264,9 @@ def oracle_step(t0, c0, op, status, t1, c1, ret, views):
             return ("newline: text' must be before + newline + margin + after", "newline")
         if not op[1] and ins != "\n":
             return ("newline(copy_margin=False) inserted more than a newline", "newline")
+        if op[1] and ins != "\n" + margin_of(t0, c0):
+            return ("newline(copy_margin=True): the margin must be exactly the leading blanks of the current line "
+                    "(the whole line when it is all blanks)", "margin")
         if c1 != c0 + len(ins):
             return ("newline: cursor", "newline")
     elif k in (5, 6):
@@ -265,6 +278,9 @@ def oracle_step(t0, c0, op, status, t1, c1, ret, views):
         at = row if k == 5 else row + 1
         if len(l1) != len(l0) + 1 or l1[:at] != l0[:at] or l1[at + 1:] != l0[at:] or l1[at].strip() != "":
             return (name + ": must add one blank (margin-only) line and keep every other line", "insert_line")
+        if l1[at] != (margin_of(t0, c0) if op[1] else ""):
+            return (name + ": the new line must hold exactly the leading blanks of the current line (the whole line when "
+                    "it is all blanks; nothing without copy_margin)", "margin")
         if t1[:c1].count("\n") != at:
             return (name + ": cursor not on the new line", "insert_line")
     elif k == 7:
@@ -365,6 +381,20 @@ def oracle_step(t0, c0, op, status, t1, c1, ret, views):
         data = unS(op[1]) * event_arg(op[2])
         if status != 0 or t1 != before + data + after or c1 != c0 + len(data):
             return ("self-insert: text' != before + data*arg + after", "insert")
+    elif k == 24 and 0 <= op[1] <= op[2]:
+        if status != 0:
+            return ("reshape_text raised", "raise")
+        ls = t0.splitlines(True)
+        pre, mid, post = "".join(ls[:op[1]]), "".join(ls[op[1]:op[2] + 1]), "".join(ls[op[2] + 1:])
+        if not mid:
+            if t1 != t0:
+                return ("reshape_text of no line changed the text", "reshape-frame")
+        else:
+            if not (t1.startswith(pre) and t1.endswith(post) and len(t1) >= len(pre) + len(post)):
+                return ("reshape_text: a line outside the addressed rows changed", "reshape-frame")
+            new = t1[len(pre):len(t1) - len(post)]
+            if new.split() != mid.split():
+                return ("reshape_text: the words of the addressed rows changed (only blanks between them may)", "reshape-words")
     elif k in (15, 16):
         if t1 != t0:
             return ("cursor motion changed text", "motion")
@@ -407,6 +437,10 @@ def single_ops(n_text):
     for kind in (0, 1, 2):
         for a in (-1, 0, 1, 2, 3):
             ops.append([22, kind, a])
+    for a in (-1, 0, 1, 2):
+        for e in (-1, 0, 1, 3):
+            for tw in (0, 2, 3):
+                ops.append([24, a, e, tw])
     return ops
 
 
@@ -434,7 +468,10 @@ def rand_text(rng, maxlen):
 
 
 def rand_op(rng, tlen):
-    k = rng.choice([1, 1, 1, 2, 2, 3, 3, 4, 5, 6, 7, 8, 9, 10, 11, 12, 13, 14, 15, 16, 17, 18, 19, 20, 21, 22, 22])
+    k = rng.choice([1, 1, 1, 2, 2, 3, 3, 4, 5, 6, 7, 8, 9, 10, 11, 12, 13, 14, 15, 16, 17, 18, 19, 20, 21, 22, 22, 24])
+    if k == 24:
+        a = rng.randint(-1, 3)
+        return [24, a, a + rng.randint(-1, 3), rng.choice([0, 0, 1, 4, 7, 12, -3])]
     if k == 21:
         return [21, rng.randint(0, tlen), S(rng.choice([" ", "", ", "]))]
     if k == 22:
@@ -586,7 +623,7 @@ def impl_wcase(case):
         l1, i1 = list(b._working_lines), b.working_index
         keys = [[S(k[0]), k[1]] for k in b._document_cache._keys]
         out.append([status, [S(l) for l in l1], i1, b.cursor_position, S(ret or ""), keys,
-                    [S(d.text), d.cursor_position, [S(l) for l in dl]]])
+                    [S(d.text), d.cursor_position, [S(l) for l in dl], list(d._line_start_indexes)]])
         bad = views_ok(b) or cache_ok(b)
         if not bad and op[0] != 23:
             if i1 != i0 or len(l1) != len(l0) or any(l1[j2] != l0[j2] for j2 in range(len(l0)) if j2 != i0):
